@@ -404,9 +404,12 @@ def runSQL (c : Case) : CaseOut := Id.run do
   let cfg := mkCfg c.cfg
   let n := (((cfgVal c.cfg "n").bind (·.head?)).bind (·.toNat?)).getD 1
   let gcols := groupCols c.cfg
-  let userRows := c.ops.filterMap fun (op, _) => match op with
+  let userRows0 := c.ops.filterMap fun (op, _) => match op with
     | "row" :: rest => parseRow rest
     | _ => none
+  -- cfg `latesink k`: the first k windows fire before any sink exists; the observable batches are those of the later rows
+  let lateK := (((cfgVal c.cfg "latesink").bind (·.head?)).bind (·.toNat?)).getD 0
+  let userRows := userRows0.drop (lateK * n)
   -- the harness's flush: pad an ungrouped stream to a multiple of N, then N sentinel rows
   let having : Option Agg.Str := ((cfgVal c.cfg "having").bind (·.head?)).bind unhex
   let hcell : Row Float := if having.isSome then [("h".toList, .int 1)] else []
@@ -469,6 +472,7 @@ def runSQL (c : Case) : CaseOut := Id.run do
   if batchesModel.length > 2 then tags := addTag tags "several-batches"
   if !gcols.isEmpty then tags := addTag tags "grouped"
   if gwin then tags := addTag tags "global-window"
+  if lateK > 0 then tags := addTag tags "late-sink"
   -- known-finding classifier: a global window builds its output aggregators with CreateBuiltinAggregator, which knows no
   -- parameterised aggregate — nth_value(x, k) and percentile(x, p) are silently left out of the result row
   let param := cfg.fields.any fun f => f.kind == .nthValue || f.kind == .percentile
